@@ -41,27 +41,55 @@ pub enum Mode {
     /// every field present with fixed cardinalities; the argument selects the oneof variant
     Full(u32),
     Random,
+    /// like Full(0), but every top-level scalar carries a value derived from its field NAME, so that the
+    /// checker (which knows the pinned name <-> number mapping) can tell which field ended up under which tag
+    Named,
+}
+
+pub fn name_value(name: &str) -> u64 {
+    let mut h: u64 = 0xcbf29ce484222325;
+    for b in name.bytes() {
+        h ^= b as u64;
+        h = h.wrapping_mul(0x100000001b3);
+    }
+    2 + h % 1_000_000
 }
 
 pub trait Gen: Sized {
     fn gen(r: &mut Rng, m: Mode, d: u32) -> Self;
+    /// generation of the field called `name` (only scalars at the top level look at the name)
+    fn gen_named(r: &mut Rng, m: Mode, d: u32, _name: &str) -> Self {
+        Self::gen(r, m, d)
+    }
 }
 
 const MAXD: u32 = 4;
 
 impl Gen for String {
+    fn gen_named(r: &mut Rng, m: Mode, d: u32, name: &str) -> Self {
+        if m == Mode::Named && d <= 1 {
+            return name.to_string();
+        }
+        Self::gen(r, m, d)
+    }
     fn gen(r: &mut Rng, m: Mode, _d: u32) -> Self {
         let n = match m {
-            Mode::Full(_) => 1 + r.below(6),
+            Mode::Full(_) | Mode::Named => 1 + r.below(6),
             Mode::Random => r.below(9),
         };
         (0..n).map(|_| match r.below(20) { 0 => '\u{00e9}', 1 => '/', 2 => '\u{4e2d}', x => (b'a' + x as u8) as char }).collect()
     }
 }
 impl Gen for Vec<u8> {
+    fn gen_named(r: &mut Rng, m: Mode, d: u32, name: &str) -> Self {
+        if m == Mode::Named && d <= 1 {
+            return name.as_bytes().to_vec();
+        }
+        Self::gen(r, m, d)
+    }
     fn gen(r: &mut Rng, m: Mode, _d: u32) -> Self {
         let n = match m {
-            Mode::Full(_) => 1 + r.below(6),
+            Mode::Full(_) | Mode::Named => 1 + r.below(6),
             Mode::Random => r.below(9),
         };
         (0..n).map(|_| r.next() as u8).collect()
@@ -70,7 +98,7 @@ impl Gen for Vec<u8> {
 impl Gen for bool {
     fn gen(r: &mut Rng, m: Mode, _d: u32) -> Self {
         match m {
-            Mode::Full(_) => true,
+            Mode::Full(_) | Mode::Named => true,
             Mode::Random => r.below(2) == 1,
         }
     }
@@ -78,6 +106,12 @@ impl Gen for bool {
 macro_rules! int_gen {
     ($t:ty) => {
         impl Gen for $t {
+            fn gen_named(r: &mut Rng, m: Mode, d: u32, name: &str) -> Self {
+                if m == Mode::Named && d <= 1 {
+                    return name_value(name) as $t;
+                }
+                Self::gen(r, m, d)
+            }
             fn gen(r: &mut Rng, m: Mode, _d: u32) -> Self {
                 let v: $t = match r.below(6) {
                     0 => 1,
@@ -87,7 +121,7 @@ macro_rules! int_gen {
                     _ => r.next() as $t,
                 };
                 match m {
-                    Mode::Full(_) => if v == 0 { 7 } else { v },
+                    Mode::Full(_) | Mode::Named => if v == 0 { 7 } else { v },
                     Mode::Random => if r.below(5) == 0 { 0 } else { v },
                 }
             }
@@ -100,12 +134,18 @@ int_gen!(u32);
 int_gen!(u64);
 
 impl<T: Gen> Gen for Option<T> {
+    fn gen_named(r: &mut Rng, m: Mode, d: u32, name: &str) -> Self {
+        if m == Mode::Named && d < MAXD {
+            return Some(T::gen_named(r, m, d, name));
+        }
+        Self::gen(r, m, d)
+    }
     fn gen(r: &mut Rng, m: Mode, d: u32) -> Self {
         if d >= MAXD {
             return None;
         }
         match m {
-            Mode::Full(_) => Some(T::gen(r, m, d)),
+            Mode::Full(_) | Mode::Named => Some(T::gen(r, m, d)),
             Mode::Random => if r.below(2) == 0 { None } else { Some(T::gen(r, m, d)) },
         }
     }
@@ -117,9 +157,15 @@ impl<T: Gen> Gen for Box<T> {
 }
 /// repeated fields; scalars inside are generated one level deeper so that depth limits bite
 impl<T: Gen> Gen for Vec<T> {
+    fn gen_named(r: &mut Rng, m: Mode, d: u32, name: &str) -> Self {
+        if m == Mode::Named && d <= 1 {
+            return vec![T::gen_named(r, m, d, name), T::gen_named(r, m, d, name)];
+        }
+        Self::gen(r, m, d)
+    }
     fn gen(r: &mut Rng, m: Mode, d: u32) -> Self {
         let n = match m {
-            Mode::Full(_) => if d <= 1 { 2 } else if d < MAXD { 1 } else { 0 },
+            Mode::Full(_) | Mode::Named => if d <= 1 { 2 } else if d < MAXD { 1 } else { 0 },
             Mode::Random => if d >= MAXD { 0 } else { r.below(4) },
         };
         (0..n).map(|_| T::gen(r, m, d)).collect()
@@ -134,7 +180,7 @@ pub fn gen_map<V: Gen>(r: &mut Rng, m: Mode, d: u32) -> HashMap<String, V> {
     // equal maps: at most one entry so that byte-equality checks stay sound
     let mut h = HashMap::new();
     let n = match m {
-        Mode::Full(_) => if d < MAXD { 1 } else { 0 },
+        Mode::Full(_) | Mode::Named => if d < MAXD { 1 } else { 0 },
         Mode::Random => if d >= MAXD { 0 } else { r.below(2) },
     };
     for _ in 0..n {
@@ -145,20 +191,21 @@ pub fn gen_map<V: Gen>(r: &mut Rng, m: Mode, d: u32) -> HashMap<String, V> {
 
 pub fn fopt<T: Default>(m: Mode, d: u32) -> Option<T> {
     match m {
-        Mode::Full(_) if d < MAXD => Some(T::default()),
+        Mode::Full(_) | Mode::Named if d < MAXD => Some(T::default()),
         _ => None,
     }
 }
 pub fn fvec<T: Default>(m: Mode, d: u32) -> Vec<T> {
     match m {
-        Mode::Full(_) if d == 0 => vec![T::default(), T::default()],
-        Mode::Full(_) if d < MAXD => vec![T::default()],
+        Mode::Full(_) | Mode::Named if d == 0 => vec![T::default(), T::default()],
+        Mode::Full(_) | Mode::Named if d < MAXD => vec![T::default()],
         _ => vec![],
     }
 }
 pub fn pick_variant(r: &mut Rng, m: Mode, n: usize) -> usize {
     match m {
         Mode::Full(k) => k as usize % n.max(1),
+        Mode::Named => 0,
         Mode::Random => r.below(n as u64) as usize,
     }
 }
@@ -225,6 +272,51 @@ pub fn wire_fields(b: &[u8]) -> Option<Vec<(u32, u8)>> {
     Some(out)
 }
 
+/// payloads of all top-level occurrences of field `num`: (wire type, varint/fixed value, bytes, offset of payload, length)
+pub fn field_payloads(b: &[u8], num: u32) -> Vec<(u8, u64, Vec<u8>, usize, usize)> {
+    let mut pos = 0;
+    let mut out = vec![];
+    while pos < b.len() {
+        let Some(key) = varint(b, &mut pos) else { break };
+        let n = (key >> 3) as u32;
+        let wt = (key & 7) as u8;
+        let (val, bytes, off, len) = match wt {
+            0 => {
+                let Some(v) = varint(b, &mut pos) else { break };
+                (v, vec![], 0, 0)
+            }
+            1 => {
+                if pos + 8 > b.len() { break }
+                let mut a = [0u8; 8];
+                a.copy_from_slice(&b[pos..pos + 8]);
+                pos += 8;
+                (u64::from_le_bytes(a), vec![], 0, 0)
+            }
+            2 => {
+                let Some(l) = varint(b, &mut pos) else { break };
+                let l = l as usize;
+                if pos + l > b.len() { break }
+                let v = b[pos..pos + l].to_vec();
+                let off = pos;
+                pos += l;
+                (0, v, off, l)
+            }
+            5 => {
+                if pos + 4 > b.len() { break }
+                let mut a = [0u8; 4];
+                a.copy_from_slice(&b[pos..pos + 4]);
+                pos += 4;
+                (u32::from_le_bytes(a) as u64, vec![], 0, 0)
+            }
+            _ => break,
+        };
+        if n == num {
+            out.push((wt, val, bytes, off, len));
+        }
+    }
+    out
+}
+
 pub fn shape_of(b: &[u8]) -> Option<Vec<(u32, u8, u32)>> {
     let f = wire_fields(b)?;
     let mut m: std::collections::BTreeMap<(u32, u8), u32> = Default::default();
@@ -244,6 +336,9 @@ pub struct TypeResult {
     pub hostile_ok: u64,
     pub hostile_err: u64,
     pub sample: String,
+    /// encodings of the fully populated instance (selector 0) and of the name-valued instance
+    pub full_bytes: Vec<u8>,
+    pub named_bytes: Vec<u8>,
 }
 
 pub struct Cfg {
@@ -255,7 +350,17 @@ pub struct Cfg {
 pub struct TypeEntry {
     pub path: &'static str,
     pub run: fn(&mut Rng, &Cfg) -> TypeResult,
+    /// decode arbitrary bytes with this type and re-encode them (Err = decode refused, Err("panic") = panicked)
+    pub recode: fn(&[u8]) -> Result<Vec<u8>, String>,
     pub diff: Option<fn(&mut Rng, &Cfg) -> TypeResult>,
+}
+
+pub fn recode<T: Message + Default>(b: &[u8]) -> Result<Vec<u8>, String> {
+    match std::panic::catch_unwind(|| T::decode(b).map(|v| v.encode_to_vec())) {
+        Ok(Ok(v)) => Ok(v),
+        Ok(Err(e)) => Err(e.to_string()),
+        Err(_) => Err("panic".into()),
+    }
 }
 pub struct UrlEntry {
     pub path: &'static str,
@@ -312,6 +417,7 @@ pub fn check<T: Message + Default + PartialEq + Gen + Clone + std::fmt::Debug>(r
         }
         if k == 0 {
             res.sample = hexs(&bytes);
+            res.full_bytes = bytes.clone();
         }
         // hostile decode: truncations and bit flips must yield Err or a value, never a panic
         for h in 0..c.hostile {
@@ -346,6 +452,10 @@ pub fn check<T: Message + Default + PartialEq + Gen + Clone + std::fmt::Debug>(r
                 Err(_) => res.failures.push(format!("decode panicked on hostile bytes {}", hexs(&b))),
             }
         }
+    }
+    {
+        let v = T::gen(r, Mode::Named, 0);
+        res.named_bytes = one(&v, &mut res, "name-valued instance");
     }
     for _ in 0..c.random {
         let v = T::gen(r, Mode::Random, 0);
